@@ -221,6 +221,7 @@ func multiScenario(rng *rand.Rand, n int, syncMode bool, steps int) {
 	kafka.VerifGroupResetConnIDs()
 	kafka.VerifStart()
 	kafka.VerifSetSink(x.log.Sink)
+	kafka.VerifSetGroupWire(rng.Intn(2) == 0)
 	kafka.VerifSetGroupHandler(x.mock.Handle)
 	for key, h := range x.hi {
 		for i := int64(0); i < h; i++ {
